@@ -77,12 +77,12 @@ func c07bindings() []c07binding {
 	add("{int: 9}", func() interface{} { return map[string]interface{}{"int": int64(9)} }, true, gram.INT, "9")
 	out = append(out, c07binding{name: "bool true", value: func() interface{} { return true }, ok: true, kind: gram.KW, kw: "TRUE"})
 	out = append(out, c07binding{name: "bool false", value: func() interface{} { return false }, ok: true, kind: gram.KW, kw: "FALSE"})
-	for _, s := range []string{"nm", "my db", `q"t`, "select", "1h", "", "a.b"} {
+	for _, s := range []string{"nm", "my db", `q"t`, "select", "1h", "", "a.b", "desc", "ASC", "true", "time"} {
 		s := s
 		add(fmt.Sprintf("{ident: %q}", s), func() interface{} { return map[string]interface{}{"ident": s} }, true, gram.IDENT, s)
 	}
 	add(`{identifier: "nm2"}`, func() interface{} { return map[string]interface{}{"identifier": "nm2"} }, true, gram.IDENT, "nm2")
-	for _, s := range []string{"re", "a/b", `\d+`, "("} {
+	for _, s := range []string{"re", "a/b", `\d+`, "(", "/a/", "//", "/var/log/"} {
 		s := s
 		add(fmt.Sprintf("{regex: %q}", s), func() interface{} { return map[string]interface{}{"regex": s} }, true, gram.REGEX, s)
 	}
